@@ -173,6 +173,32 @@ CHECKS = {
         "MaxLenOf: documented maxima, 16 where unknown, unbounded for java/dotnet/webasm.",
    technique="TLA+ totality/locality predicates; exhaustive leading-word enumeration through the real decoders; "
              "TLC trace acceptor"),
+ "C09": dict(
+   category="model_checking",
+   text="MacroExpand!Expand performs .define/equ/.macro/.repeat substitution by hand on abstract programs; the meaning of P "
+        "is AsmData!Denote(Expand(P)). GenMacro (TLC) emits a prelude of definitions (chained defines, equ, macros with "
+        "0/1/2/9 parameters, a macro invoking a macro, a macro containing .repeat, string arguments with commas) followed "
+        "by every body of 1-2 statements (BFS) and drawn bodies of up to 10; the real assembler assembles P on three "
+        "carriers; TLC accepts the recorded image and symbols iff they equal Denote(Expand(P)). .include is checked "
+        "through the executable: moving the tail of a program into an included file must give the identical output file.",
+   design_ref="DESIGN.md 4 C09",
+   note="Define/equ values are single literals or names (no multi-token textual splicing); no labels inside macro bodies or "
+        "repeat blocks; the CharSource stack-discipline model of the design is not built in this revision.",
+   technique="TLA+ hand-expansion function composed with the directive semantics; TLC-generated programs replayed "
+             "into the real assembler; TLC trace acceptor"),
+ "C11": dict(
+   category="model_checking",
+   text="SymResolve!RefRun is the reference: blocks are determined first, a use sees its own block's definition of the name "
+        "wherever it stands, else the global one; duplicates in one scope, undefined names, nested scopes and exporting "
+        "a non-global are errors. TLC enumerates every program of up to 4 (thorough 5) statements over labels, uses, "
+        ".scope/.ends, .func/.endf, .set, .export (30,940 / 402,233 programs); each is assembled by the real code and written "
+        "as ELF; TLC accepts the .dc32 words of the image and the exported symbols of the .symtab. A seeded subset is "
+        "rendered with 200-character names behind 400 filler labels so that several 32 KiB symbol pools are in use.",
+   design_ref="DESIGN.md 4 C11",
+   note=".set mixed with labels of one name, .set used before its first assignment, .set inside a scope and blocks left open "
+        "at the end of the file are unconstrained (the property does not settle them).",
+   technique="TLA+ scoping reference; exhaustive small-program enumeration by TLC replayed into the real "
+             "assembler/ELF writer; TLC trace acceptor"),
 }
 
 NOT_YET = "machinery for this property is not built yet in this revision (planned in DESIGN.md section 8)"
